@@ -513,6 +513,10 @@ func genWord(t *rapid.T, maxLen int) string {
 
 // genWideWord mixes in punctuation that means something somewhere in the flat-file grammar.
 func genWideWord(t *rapid.T, maxLen int) string {
+	if rapid.IntRange(0, 7).Draw(t, "utf8") == 0 {
+		// text outside ASCII (people do write it into notes and definitions): several bytes per character
+		return rapid.SampledFrom([]string{"é", "µm", "α→β", "naïve", "Ångström", "日本", "5′", "–"}).Draw(t, "uword")
+	}
 	n := rapid.IntRange(1, maxLen).Draw(t, "wlen")
 	b := make([]byte, n)
 	for i := range b {
